@@ -12,7 +12,7 @@ for d in seeded/C*; do
 done
 for k in "${!REF[@]}"; do
   for c in ${REF[$k]}; do
-    git -C /repo apply seeded/refactors/r$k.diff; ./check $c >/dev/null 2>&1; rc=$?; git -C /repo checkout -- .
+    BAK=$(mktemp -d /verif/work/vx_ev_XXXX); cp -r evidence $BAK/; git -C /repo apply seeded/refactors/r$k.diff; ./check $c >/dev/null 2>&1; rc=$?; git -C /repo checkout -- .; rm -rf evidence; cp -r $BAK/evidence evidence; rm -rf $BAK
     if [ $rc = 0 ]; then echo "ok   refactor r$k $c exit 0"; else echo "ALARM refactor r$k $c exit $rc"; bad=1; fi
   done
 done
